@@ -5,8 +5,8 @@ import os
 import random
 import time
 
-from .common import Check, main_wrapper, native_batch
-from ..specs import registry as SR
+from .common import Check, main_wrapper, native_batch, run_parallel
+from ..specs import registry as SR, primaries as PR
 from ..bounded import programs as P
 from ..pyvc.values import SOpt
 import z3
@@ -69,6 +69,46 @@ def finite_frame(chk):
                     bad.append(f"{node.name}.{b.name}")
     chk.finite("scope.subclasses_only_override_init", not bad, 6, {"overrides": bad},
                what=f"Scope subclasses override methods: {bad}")
+
+
+def primaries_frame(chk):
+    """completeness of the progress contracts and the registry facts they rely on"""
+    under = {"IsBlockStart", "IsBlockEnd", "IsComment", "IsEmptyLine", "IsFuncDeclaration"} | set(PR.primary_contracts())
+    found, prios, scoped = set(), {}, set()
+    rules_dir = os.path.join(chk.repo.root, "norminette", "rules")
+    for f in sorted(os.listdir(rules_dir)):
+        if not f.endswith(".py"):
+            continue
+        for node in chk.repo.module("norminette/rules/" + f).tree.body:
+            if isinstance(node, ast.ClassDef) and any(isinstance(b, ast.Name) and b.id == "Primary" for b in node.bases):
+                found.add(node.name)
+                for kw in node.keywords:
+                    if kw.arg == "priority" and isinstance(kw.value, ast.Constant):
+                        prios[node.name] = kw.value.value
+                if any(isinstance(b, ast.Assign) and any(isinstance(t, ast.Name) and t.id == "scope" for t in b.targets)
+                       for b in node.body):
+                    scoped.add(node.name)
+    missing = sorted(found - under)
+    chk.finite("primaries.every_primary_has_a_progress_contract", not missing, len(found),
+               {"primaries": sorted(found), "without_contract": missing},
+               what=f"primary rule(s) without a progress contract: {missing} -- a match of such a rule is not known to "
+                    "consume a token")
+    # NOT_EMPTY: IsEmptyLine runs before the primaries that assume a non-blank statement, in every scope
+    needs = ["IsControlStatement", "IsAmbiguousDeclaration"]
+    ok = "IsEmptyLine" not in scoped and all(prios.get("IsEmptyLine", -1) > prios.get(n, 10 ** 6) for n in needs)
+    chk.finite("registry.empty_line_before_primaries_that_assume_a_non_blank_statement", ok, len(needs),
+               {"priorities": {n: prios.get(n) for n in needs + ["IsEmptyLine"]}, "IsEmptyLine_scope_restricted": "IsEmptyLine" in scoped},
+               what="IsEmptyLine no longer runs before IsControlStatement / IsAmbiguousDeclaration in every scope")
+    # IsExpressionStatement reads history[-1] (is_operator): it only runs inside a function body
+    tree = chk.repo.module("norminette/rules/is_expression_statement.py").tree
+    sc = []
+    for node in tree.body:
+        if isinstance(node, ast.ClassDef) and node.name == "IsExpressionStatement":
+            for b in node.body:
+                if isinstance(b, ast.Assign) and any(isinstance(t, ast.Name) and t.id == "scope" for t in b.targets):
+                    sc = [ast.unparse(e) for e in getattr(b.value, "elts", [])]
+    chk.finite("registry.expression_statement_only_inside_functions", sorted(sc) == ["ControlStructure", "Function"], 1,
+               {"scope": sc}, what=f"IsExpressionStatement.scope is {sc}: its contract assumes a non-empty history")
 
 
 def bounded_segments(chk, seed, thorough):
@@ -204,7 +244,11 @@ def run(tier, seed, replay):
     fd, cff = SR.func_declaration()
     E2.contracts[cff.key] = cff
     chk.run_contract(E2, fd)
+    # progress of every other primary, with the cursor helpers of Context and of the rule
+    # classes they call: each verified against the contracts of the others
+    run_parallel(chk, PR.jobs(chk.repo), PR.INSTALLS, procs=12)
     finite_frame(chk)
+    primaries_frame(chk)
 
     cases, fails, dt = search()
     chk.add_bounded("Lexer + Registry.run with an observing wrapper on Context.pop_tokens",
@@ -223,9 +267,21 @@ def run(tier, seed, replay):
                                                       "confirmed_on_real_code": True}, what=m, confirmed=True)
     chk.assumptions += [
         "Registry.run is verified against the call-site contract of run_rules: a primary that matches reports a "
-        "jump >= 1 and does not assign context.tokens (the jump clause is proved per primary where a progress "
-        "contract exists -- IsBlockStart, IsBlockEnd, IsComment, IsEmptyLine here, the others under C05 -- and is an "
-        "assumption for the rest)",
+        "jump >= 1 and does not assign context.tokens; that clause is proved for each of the 19 primaries "
+        "(specs/primaries.py + specs/registry.py), each against the contracts of the helpers it calls, which are "
+        "verified against their bodies in turn; that the 19 are all the primaries is a finite check",
+        "token-stream fact used by the preprocessor / prototype contracts: an IDENTIFIER token carries its spelling "
+        "(Lexer.parse_identifier builds Token('IDENTIFIER', pos, value)); not derived here",
+        "IsControlStatement / IsAmbiguousDeclaration assume a statement that is not a blank line: IsEmptyLine runs "
+        "first (finite check on priorities and scope) and matches exactly the blank lines (its contract); the "
+        "composition of the two facts through the for-loop of Registry.run is a hand argument",
+        "IsExpressionStatement assumes a non-empty history (it only runs in Function / ControlStructure scopes: finite "
+        "check; that such a scope implies an earlier IsFuncDeclaration match is a hand argument)",
+        "IsVarDeclaration.var_declaration: IndexError on ids[-1] is not excluded by its contract (it depends on what "
+        "parenthesis_contain answers); the check_func_format contracts omit the function-name / alignment bookkeeping "
+        "(mechanical slice, frame-scanned)",
+        "termination of the recursive-descent ConstantExpressionParser rests on CPython's recursion limit "
+        "(RecursionError is caught and turned into CParsingError by the real code)",
         "Context.dprint only prints (modelled as a no-op)",
         "rules.primaries / Registry.dependencies are sequences of unknown length of opaque rule classes",
         "alignment (statement starts at a line start, ends at a line end) and depth claims are about conforming "
